@@ -215,6 +215,19 @@ def run(ctx: Ctx):
                          f"and is closed with DWA_TIMEOUT although the DWA arrived in time")
         if any(n.has_call("send_message") for n in gp.nodes):
             ctx.fail("Node.receive_dwa#send", rd.loc(), "receive_dwa transmits a message")
+    # only a DWA ends the wait for a DWA: reset_last_dwa has no caller but receive_dwa (who-may-call)
+    ctx.inst("reset_last_dwa:called-for-a-DWA-only")
+    for f_ in model.all_funcs():
+        if ".node" not in f_.module.name or (f_.cls is nc and f_.name == "receive_dwa"):
+            continue
+        for c_ in ast.walk(f_.node):
+            if isinstance(c_, ast.Call) and isinstance(c_.func, ast.Attribute) and c_.func.attr == "reset_last_dwa":
+                ctx.fail("reset_last_dwa:called-for-a-DWA-only", f_.loc(c_),
+                         f"{f_.qualname} ends the wait for the DWA (`{ast.unparse(c_)[:50]}`) without a DWA "
+                         f"having been received: the connection returns to READY on other traffic (the "
+                         f"peer's own DWR, a request), is not closed when the DWA timeout expires, and a "
+                         f"second DWR is sent while the first is unanswered",
+                         expected="reset_last_dwa called from Node.receive_dwa only", observed=f_.qualname)
     # clocks
     for prop, attr in (("dwa_wait_time", "_last_dwr"), ("last_read_since", "_last_read")):
         f = pc.methods.get(prop)
